@@ -892,7 +892,7 @@ Lemma step_all : forall c s g lab, Inv c s g -> cfg_ok c -> wf_step g lab = true
   snd (q_step c s lab) = snd (spec_step (g_list g) lab) /\
   g_list (ghost_step g lab) = fst (spec_step (g_list g) lab).
 Proof.
-  intros c s g lab I [H2 HW] Hw Hh. destruct lab as [id p | | id p | id p | | | b | id p |]; cbn [q_step spec_step fst snd].
+  intros c s g lab I [H2 HW] Hw Hh. destruct lab as [id p | | id p | id p | | | b | id p | |]; cbn [q_step spec_step fst snd].
   - split; [apply step_push; assumption | split; reflexivity].
   - destruct (step_pop c s g I Hh) as [A B]. destruct (q_pop s) as [r s'] eqn:E. cbn [fst snd] in *.
     split; [assumption|]. split; [congruence|]. cbn [ghost_step]. destruct (g_list g) eqn:El; cbn [g_list tl]; rewrite ?El; reflexivity.
@@ -902,6 +902,7 @@ Proof.
     split; [assumption|]. split; [congruence | reflexivity].
   - split; [apply step_loader; assumption | split; reflexivity].
   - split; [apply step_tick; assumption | split; reflexivity].
+  - cbn [hyp_step] in Hh. discriminate.
   - cbn [hyp_step] in Hh. discriminate.
   - cbn [hyp_step] in Hh. discriminate.
 Qed.
@@ -1058,6 +1059,22 @@ Proof.
   vm_compute in E. discriminate.
 Qed.
 
+(* F24, the race on lastIteratedMsgID: the transient iteration ends on lastMemMsgID after the persistent
+   iteration's last callback and before the persistent goroutine's test: swappedToDisk is cleared although the
+   persistent store holds more. *)
+Definition f24_iter_race_witness : list label :=
+  [Push 1 false; Push 2 false; Push 3 false; Push 4 false; PersistTick false; Pop; Pop; Pop; LoaderTurn;
+   Push 5 true; Push 6 true; PersistTick true; Pop; LoaderIterRace; Pop; PersistTick true; PersistTick false; LoaderTurn; Pop].
+
+Lemma config_independent_refuted_F24_iter_race : ~ config_independent_statement.
+Proof.
+  intro H. specialize (H true 2 100 f24_iter_race_witness f24_iter_race_witness).
+  assert (E : client_outs f24_iter_race_witness (snd (q_run (mkCfg true 2) q_init f24_iter_race_witness)) =
+              client_outs f24_iter_race_witness (snd (q_run (mkCfg true 100) q_init f24_iter_race_witness))).
+  { apply H; try reflexivity; vm_compute; congruence. }
+  vm_compute in E. discriminate.
+Qed.
+
 (* F24b: purge while swapped leaves the transient store and the flag: the purged message comes back,
    and the length counter goes negative. *)
 Definition f24_purge_witness : list label :=
@@ -1112,7 +1129,7 @@ Proof.
     assert (Hcases : (lab = Pop /\ o = OPop None /\ s1 = s) \/
                      (effective (lab :: t) (o :: os) = lab :: effective t os /\
                       effective_outs (lab :: t) (o :: os) = o :: effective_outs t os /\ hyp_step c s lab = true)).
-    { destruct lab as [id p | | id p | id p | | | b | id p |]; cbn [q_step] in E1.
+    { destruct lab as [id p | | id p | id p | | | b | id p | |]; cbn [q_step] in E1.
       - inversion E1; subst. right. repeat split; reflexivity || exact Hh1.
       - unfold q_pop in E1. destruct (mem s) as [| x m'] eqn:Em.
         + inversion E1; subst. left. repeat split.
@@ -1122,6 +1139,7 @@ Proof.
       - unfold q_purge in E1. inversion E1; subst. right. repeat split; reflexivity || exact Hh1.
       - inversion E1; subst. right. repeat split; reflexivity || exact Hh1.
       - inversion E1; subst. right. repeat split; reflexivity || exact Hh1.
+      - cbn [hyp_step_safety hyp_step] in Hh1. discriminate.
       - cbn [hyp_step_safety hyp_step] in Hh1. discriminate.
       - cbn [hyp_step_safety hyp_step] in Hh1. discriminate. }
     destruct Hcases as [(El & Eo & Es) | (Ee & Eeo & Hhs)].
@@ -1191,7 +1209,7 @@ Proof.
   { intros id Hid. apply N.leb_le in Hid. rewrite <- app_assoc. cbn [app].
     apply (Permutation_NoDup (Permutation_middle (g_list g) (g_outst g) id)). constructor; [| assumption].
     intro Hin. rewrite Forall_forall in Hb. specialize (Hb id Hin). lia. }
-  destruct lab as [id p | | id p | id p | | | b | id p |]; cbn [ghost_step g_list g_outst wf_step] in *; try assumption.
+  destruct lab as [id p | | id p | id p | | | b | id p | |]; cbn [ghost_step g_list g_outst wf_step] in *; try assumption.
   - apply Hpush; assumption.
   - destruct (g_list g) as [| x l'] eqn:El; cbn [g_list g_outst]; [rewrite El; assumption|].
     apply (Permutation_NoDup (Permutation_middle l' (g_outst g) x)). exact Hn.
@@ -1274,7 +1292,7 @@ Lemma step2_pk : forall c s g lab, Inv2 c s g -> cfg_ok c -> lab <> Restart ->
   (forall k, In k (s_add (pst s')) -> ~ In k (s_flushed (pst s'))).
 Proof.
   intros c s g lab I2 Hc Hnr Hw Hh. destruct I2 as [I Hnd Hpk Haf]. pose proof I as I0. destruct I as [I_abs I_len I_ids_sorted I_ids_range I_lm I_ls I_next I_mem I_outst I_disk_ids I_settle I_tsettle I_notsw I_sw I_fl I_pkeys I_tkeys I_pers].
-  destruct lab as [id p | | id p | id p | | | b | id p |]; cbn [q_step fst ghost_step g_pers g_list g_outst]; try congruence.
+  destruct lab as [id p | | id p | id p | | | b | id p | |]; cbn [q_step fst ghost_step g_pers g_list g_outst]; try congruence.
   - (* Push *)
     cbn [wf_step] in Hw. apply N.leb_le in Hw.
     pose proof (push_old_lt c s g id I0 Hw) as Hold. pose proof (push_id_not_pers c s g id I0 Hw) as Hnp.
@@ -1358,6 +1376,7 @@ Proof.
     + intros Hd k. unfold live. rewrite persist_idem. apply Hpk; assumption.
     + intros k Hk. cbn in Hk. contradiction.
   - cbn [hyp_r_step hyp_step] in Hh. discriminate.
+  - cbn [hyp_r_step hyp_step] in Hh. discriminate.
 Qed.
 
 Lemma firstn_short : forall {A} n (l : list A), (length (firstn n l) < n)%nat -> firstn n l = l.
@@ -1430,7 +1449,7 @@ Proof.
   intros c s g lab I2 Hc Hw Hh.
   assert (Hnd' : NoDup (g_list (ghost_step g lab) ++ g_outst (ghost_step g lab))).
   { destruct I2 as [I Hnd _ _]. apply ghost_nodup_step; [assumption | eapply ghost_bound; eauto | assumption]. }
-  destruct lab as [id p | | id p | id p | | | b | id p |] eqn:El.
+  destruct lab as [id p | | id p | id p | | | b | id p | |] eqn:El.
   9: { (* Restart *)
     cbn [hyp_r_step] in Hh. cbn [q_step fst snd gspec_step].
     split; [| reflexivity].
